@@ -22,19 +22,24 @@ impl Builder {
 '''
 PLAN = dict(
     id="C18", api_files=['tracing-log/src/lib.rs', 'tracing-log/src/log_tracer.rs'], level="other", explanation="Level / LevelFilter conversion between log and tracing is an order-preserving bijection (all 5 / 6 values, all pairs). LogTracer::log + dispatch_record: for every record level, collector verdict and published MAX_LEVEL satisfying C01's invariant (MAX_LEVEL bounds what the current collector accepts), exactly one Collect::event iff the collector accepts the record's own level and target (the collector is asked about exactly that level and that target string), else none; the event carries the record's level. An ignored crate prefix yields none (bounded: one prefix). as_trace copies level, target, file, line, module. The tracing -> log direction (log feature) and normalized_metadata are not built. Added after seed C18-3: the same one-event-iff-accepted obligation through format_trace, and that the emitted event's normalised metadata names the record's own target, level, file, line and module path.",
-    functions_under_contract=['tracing-log/src/lib.rs: format_trace (the entry point without LogTracer::enabled in front), NormalizeEvent::{normalized_metadata,is_log}', 'tracing-log/src/lib.rs: AsLog / AsTrace for Level, LevelFilter, log::Record, log::Metadata; dispatch_record; loglevel_to_cs', 'tracing-log/src/log_tracer.rs: LogTracer::{enabled,log}'],
-    trusted_base=['tracing_core::dispatch::get_default and LevelFilter::current replaced by contract stubs over tagged harness state (contracts: C02, C19/C01); driving the real statics cross-crate is defeated by the Kani 0.68 constant/static aliasing (DESIGN.md 0a)', "Kani 0.68 / CBMC 6.11 / CaDiCaL; Kani's std build (nightly-2026-08-21), not the repo toolchain's", 'core::fmt::Formatter::pad stubbed to Ok(()) with -Z stubbing (panic-message formatting on infeasible error branches; no harness that uses it reads formatted text)', 'cfg(kani) thread_local! shim and once_cell::sync::Lazy contract stub (see overlay_additions)'],
+    functions_under_contract=['tracing-log/src/lib.rs: format_trace (the entry point without LogTracer::enabled in front), NormalizeEvent::{normalized_metadata,is_log}', 'tracing-log/src/lib.rs: AsLog / AsTrace for Level, LevelFilter, log::Record, log::Metadata; dispatch_record; loglevel_to_cs', 'tracing-log/src/log_tracer.rs: LogTracer::{enabled,log}', 'tracing/src/macros.rs (feature log): if_log_enabled! - the gate is open iff no collector has ever been installed, whatever is current now; event! + __tracing_log! + MacroCallsite::log - one log record with the event\'s level and target iff the gate is open and log accepts the level (all five levels, any cached interest / published max level)'],
+    trusted_base=['tracing -> log unit: tracing_core::dispatch::{has_been_set, get_default, get_current}, LevelFilter::current, callsite::register, log::logger and log::max_level are contract stubs over tagged harness state (sticky ever-installed flag; current = a collector or the no-op one; any max level; a recording logger with an arbitrary enabled() answer)', 'tracing_core::dispatch::get_default and LevelFilter::current replaced by contract stubs over tagged harness state (contracts: C02, C19/C01); driving the real statics cross-crate is defeated by the Kani 0.68 constant/static aliasing (DESIGN.md 0a)', "Kani 0.68 / CBMC 6.11 / CaDiCaL; Kani's std build (nightly-2026-08-21), not the repo toolchain's", 'core::fmt::Formatter::pad stubbed to Ok(()) with -Z stubbing (panic-message formatting on infeasible error branches; no harness that uses it reads formatted text)', 'cfg(kani) thread_local! shim and once_cell::sync::Lazy contract stub (see overlay_additions)'],
     assumptions=["C01's max-level invariant as precondition", "the message text of the event is core::fmt's"],
-    not_covered=['tracing with the `log` feature emitting log records (if_log_enabled!, Span::log)', 'NormalizeEvent::normalized_metadata', 'ignore lists longer than one entry'],
+    not_covered=['Span::log (the span lifecycle records of the tracing -> log direction) and the text of a mirrored record (LogValueSet formatting)', 'the log-always feature', 'ignore lists longer than one entry'],
     kani=[dict(
         crate="tracing-log", tls_shim_crates=["tracing-core"], once_cell_stub=True,
         modules=[dict(name="__verif_c18", attach="lib", files=["log_bridge.kani.rs"])],
         append=[dict(file="tracing-core/src/dispatch.rs", text=_m.DISPATCH_HELPER, kind="cfg(kani) constructor helper"),
                 dict(file="tracing-core/src/metadata.rs", text=SETMAX_HELPER, kind="cfg(kani) accessor helper"),
                 dict(file="tracing-log/src/log_tracer.rs", text=BUILD_HELPER, kind="cfg(kani) constructor helper")],
+    ), dict(
+        # tracing -> log: the gate in front of every mirrored record, in the `tracing` crate built with feature `log`
+        crate="tracing", tls_shim_crates=["tracing-core"], once_cell_stub=True, tag="log-fallback", features=["log"],
+        modules=[dict(name="__verif_c18f", attach="lib", files=["log_fallback.kani.rs"])],   # Dispatch::__verif_unregistered: appended by the unit above
+        append=[dict(file="tracing-core/src/callsite.rs", text=_m.REG_HELPER, kind="cfg(kani) accessor helper")],
     )],
     manifest=dict(technique='full-domain conversion tables and an exactly-one-event contract on the real LogTracer / dispatch_record with a recording collector (Kani)',
-        text="Partial: the log -> tracing direction is proved for all levels / verdicts under C01's invariant; the tracing -> log direction and normalisation are not built.",
-        note="Assumed: C01's invariant. Not covered: tracing->log, normalized_metadata.",
+        text="Partial: the log -> tracing direction is proved for all levels / verdicts under C01's invariant; the tracing -> log direction is covered for events (gate and one-record contract through the real macro expansion), not for span lifecycle records.",
+        note="Assumed: C01's invariant. Not covered: Span::log, log-always, record text.",
         design_ref="DESIGN.md section 4, C18"),
 )
